@@ -1401,6 +1401,80 @@ func (h *harness) typedNilBranches(f fixture, types []reflect.Type, rotate *int)
 
 // ---------------------------------------------------------------------------------------------------------------
 
+
+// ---------------------------------------------------------------------------------------------------------------
+// extension (4): optional single-valued children the parser left unset. The statement quantifies over "optional
+// fields set and unset": for every node of a fixture and every nil field whose type is a pointer to a model struct,
+// the field is set to a new zero-valued node (one field at a time, restored afterwards) and the structural walk of the
+// root must enter that node exactly once - or report an error; a walk that returns nil and never shows the child has
+// dropped a modelled child silently. Each (parent type, field) pair is tried on the first fixture that offers it
+// (bound "2": on every fixture).
+func (h *harness) optionalFieldsSet(f fixture, tried map[string]bool) {
+	seen := map[uintptr]bool{}
+	var visit func(v reflect.Value)
+	visit = func(v reflect.Value) {
+		switch v.Kind() {
+		case reflect.Interface:
+			if !v.IsNil() {
+				visit(v.Elem())
+			}
+		case reflect.Pointer:
+			if v.IsNil() || seen[v.Pointer()] {
+				return
+			}
+			seen[v.Pointer()] = true
+			if v.Elem().Kind() != reflect.Struct || v.Elem().Type().PkgPath() != cypherPkgPath {
+				return
+			}
+			st := v.Elem()
+			for i := 0; i < st.NumField(); i++ {
+				fld := st.Field(i)
+				ft := fld.Type()
+				if fld.Kind() == reflect.Pointer && fld.IsNil() && fld.CanSet() && ft.Elem().Kind() == reflect.Struct && ft.Elem().PkgPath() == cypherPkgPath {
+					key := st.Type().String() + "." + st.Type().Field(i).Name
+					if tried[key] && !h.thorough {
+						continue
+					}
+					tried[key] = true
+					h.count("optional-set")
+					child := reflect.New(ft.Elem())
+					fld.Set(child)
+					rec := newRecorder(0)
+					var err error
+					var pv any
+					func() {
+						defer func() { pv = recover() }()
+						err = walk.CypherStructural(f.root, rec)
+					}()
+					switch {
+					case pv != nil:
+						h.deviate("optional-set-panic", "structural walk panicked (%v) with %s set to a new %s, fixture %s", pv, key, ft.Elem().Name(), f.name)
+					case err != nil:
+						h.hits["note:optional-set-rejected"]++
+					case rec.entered[child.Pointer()] != 1:
+						h.deviate("optional-set-dropped", "structural walk returned nil but entered the child %d times: %s set to a new %s (the parser left it nil), fixture %s", rec.entered[child.Pointer()], key, ft.Elem().Name(), f.name)
+					}
+					fld.Set(reflect.Zero(ft))
+				}
+			}
+			for i := 0; i < st.NumField(); i++ {
+				if st.Field(i).CanInterface() {
+					visit(st.Field(i))
+				}
+			}
+		case reflect.Slice:
+			for i := 0; i < v.Len(); i++ {
+				visit(v.Index(i))
+			}
+		case reflect.Map:
+			for _, k := range v.MapKeys() {
+				visit(v.MapIndex(k))
+			}
+		}
+	}
+	visit(reflect.ValueOf(f.root))
+}
+
 func TestVerifBoundedWalk(t *testing.T) {
 	h := &harness{known: map[string]bool{}, hits: map[string]int{}, classCases: map[string]int{}, types: map[reflect.Type]bool{}, ifaceOut: map[string]int{}, ifaceSkipped: map[string]int{}}
 	bound := os.Getenv("VERIF_BOUND")
@@ -1473,9 +1547,11 @@ func TestVerifBoundedWalk(t *testing.T) {
 		rand.New(rand.NewSource(seed)).Shuffle(len(order), func(i, j int) { order[i], order[j] = order[j], order[i] })
 	}
 
+	optionalTried := map[string]bool{}
 	for _, fi := range order {
 		f := fixtures[fi]
 		model, q := f.root, f.name
+		h.optionalFieldsSet(f, optionalTried)
 		// deep copy: equal and disjoint
 		h.count("base")
 		cp, pv := safeCopy(model)
